@@ -162,6 +162,19 @@ func (s *Session) Resolve(op prog.Op, side int) prog.Concrete {
 			}
 		}
 	}
+	if op.Kind == prog.OpMpuComplete && op.Supplied != "" {
+		mu := unknownUpload
+		if (op.Upload >= 0 || op.Upload == prog.LastUpload) && len(s.uploads) > 0 {
+			u := s.uploads[len(s.uploads)-1]
+			if op.Upload >= 0 {
+				u = s.uploads[op.Upload%len(s.uploads)]
+			}
+			mu = u.model
+		}
+		if et, sums, ok := s.Model.PreviewComplete(c.Bucket, mu); ok {
+			c.CompleteETag, c.CompleteSums = et, sums
+		}
+	}
 	c.VersionID = s.resolveVer(op.Ver, c.Bucket, c.Key, side)
 	c.SrcVersionID = s.resolveVer(op.SrcVer, c.SrcBucket, c.SrcKey, side)
 	c.IfMatchETag = s.resolveETag(op.IfMatch, c.Bucket, c.Key)
